@@ -147,7 +147,24 @@ def forward_uses(f, start_local, max_steps=200):
     return sinks
 
 
-def try_propagated(f, call):
+def _outer_try_of_slot(f, slot):
+    """the caller-level call-like carrier of an inlined helper's result: a pseudo call object whose dest is the local that receives `slot`"""
+    for b, blk in enumerate(f.blocks):
+        for st in blk["stmts"]:
+            rv = st.get("rv") or {}
+            if rv.get("k") == "use" and "lhs" in st and not st["lhs"].get("p"):
+                q = op_place(rv["op"])
+                if q is not None and q["l"] == slot and not q.get("p") and st["lhs"]["l"] != slot:
+                    class _Carrier:
+                        pass
+                    c = _Carrier()
+                    c.dest = {"l": st["lhs"]["l"]}
+                    c.bb = b
+                    return c
+    return None
+
+
+def try_propagated(f, call, _depth=0):
     """ERRPROP: the Result produced by `call` flows into `Try::branch` whose Break arm reaches
     `from_residual` into the return place, or the value is returned directly.  Returns
     (ok: bool, how: str, branch_block or None)."""
@@ -196,6 +213,13 @@ def try_propagated(f, call):
                     if c.path == FROM_RESIDUAL and c.dest["l"] == 0 and not c.dest.get("p"):
                         found = True
                         break
+                    # the `?` sits in a helper that was spliced in: its `return Err(..)` writes the helper's result slot, which the caller
+                    # in turn propagates with its own `?` (checked the same way, one level up)
+                    if c.path == FROM_RESIDUAL and not c.dest.get("p") and f.blocks[x].get("inl") and _depth < 4:
+                        outer = _outer_try_of_slot(f, c.dest["l"])
+                        if outer is not None and try_propagated(f, outer, _depth + 1)[0]:
+                            found = True
+                            break
                 for y in f.succ[x]:
                     if y not in seen:
                         seen.add(y)
@@ -277,10 +301,33 @@ def result_killed_unexamined(f, call):
 
 
 def continue_edge_of_try(f, call):
-    """(switch_block, label) of the Continue edge of the `?` applied to `call`'s result, or None"""
+    """(switch_block, label) of the Continue edge of the `?` applied to `call`'s result, or None.  For a call inside a spliced-in helper the
+    edge that matters to the caller is the one of the caller's own `?` on the helper's result (the helper returns Ok only past its inner `?`)."""
     ok, how, tb = try_propagated(f, call)
     if not ok or tb is None:
         return None
+    if f.blocks[call.bb].get("inl"):
+        # climb: find the from_residual of this `?`, the slot it writes, and the caller-level `?` of that slot
+        sw0 = f.blocks[tb]["term"]
+        seen_ = set()
+        work_ = [y for (_, y) in f.succ_edges(tb)]
+        while work_:
+            x = work_.pop()
+            if x in seen_:
+                continue
+            seen_.add(x)
+            t_ = f.blocks[x]["term"]
+            if t_["k"] == "call":
+                c_ = Call(f, x, t_)
+                if c_.path == FROM_RESIDUAL and not c_.dest.get("p") and c_.dest["l"] != 0:
+                    outer = _outer_try_of_slot(f, c_.dest["l"])
+                    if outer is not None:
+                        e_ = continue_edge_of_try(f, outer) if not f.blocks[outer.bb].get("inl") else continue_edge_of_try(f, outer)
+                        if e_ is not None:
+                            return e_
+                    break
+                continue
+            work_.extend(f.succ[x])
     sw = f.blocks[tb]["term"]
     o = f.origin(sw["discr"])
     if o[0] != "discr":
